@@ -97,6 +97,17 @@ def linear(g, rd, f, idx, ctx, depth=0):
             return {path_str(access_path(f, n['obj'], ctx)): 1}
         c = strip_targs(n.get('c', '') or '')
         last = c.rsplit('::', 1)[-1]
+        if n.get('obj') is not None and not n.get('args') and access_path(f, n['obj'], ctx) == ('this',):
+            # a trivial getter of the same object (`return capacity_ - 1;`): use what it returns
+            callee = getattr(g, 'prog', None) and g.prog.funcs.get(n.get('ck'))
+            if callee is not None and callee.blocks:
+                rets = [m for m in callee.nodes if m['k'] == 'return']
+                effects = [m for m in callee.nodes if m['k'] in ('call', 'construct', 'binop') and (m['k'] != 'binop' or m['op'].endswith('=') and m['op'] not in ('==', '!=', '<=', '>='))
+                           and not (m['k'] == 'call' and atomic_op(m) and atomic_op(m)[0] == 'load')]
+                if len(rets) == 1 and not effects and rets[0].get('e') is not None and rets[0]['e'] >= 0:
+                    sub = linear(g, {}, callee, rets[0]['e'], None)
+                    if sub is not None:
+                        return sub
         if n.get('obj') is not None and last in ('size', 'length', 'count', 'max_size', 'Size'):
             return {'%s.%s()' % (path_str(access_path(f, n['obj'], ctx)), last): 1}
         if n.get('obj') is not None and n.get('cconst') and not n.get('args'):
